@@ -308,6 +308,24 @@ def spelling_pda(rng):
     return {'Q': Q, 'Sigma': ['a', 'b'], 'Gamma': sorted([x, y, xy]), 'delta': delta, 'q0': 's', 'F': F, 'eps': e}
 
 
+def retag(x, rng, allow_empty=False):
+    """the same DFA / NFA / PDA with its states renamed to unusual (but legal for the class constructors) names"""
+    names = tricky_names(rng, len(x['Q']), allow_empty=allow_empty)
+    rng.shuffle(names)
+    m = dict(zip(x['Q'], names))
+    y = dict(x)
+    y['Q'] = [m[q] for q in x['Q']]
+    y['q0'] = m[x['q0']]
+    y['F'] = [m[q] for q in x['F']]
+    if 'Gamma' in x:
+        y['delta'] = [[m[t[0]], t[1], t[2], m[t[3]], t[4]] for t in x['delta']]
+    elif 'eps' in x:
+        y['delta'] = [[m[q], a, [m[t] for t in ts]] for q, a, ts in x['delta']]
+    else:
+        y['delta'] = [[m[q], a, m[t]] for q, a, t in x['delta']]
+    return y
+
+
 def relabel_re(t, codes):
     """rename the symbols 0..k-1 of a regexp tree to the given codes"""
     if t[0] == 's':
